@@ -476,6 +476,10 @@ func opColumn(r *Rand) (kvql.Type, opColGen, string) {
 	bytesGen := func(r *Rand) kvql.Column { return []byte(strs[r.Intn(min(len(strs), small+3))]) }
 	strGen := func(r *Rand) kvql.Column { return strs[r.Intn(min(len(strs), small+3))] }
 	intGen := func(r *Rand) kvql.Column { return ints[r.Intn(min(len(ints), small+5))] }
+	// integers near ±2^63 and of opposite sign: their difference leaves int64
+	bigs := []int64{math.MaxInt64, math.MinInt64, math.MaxInt64 - 1, math.MinInt64 + 1, 9000000000000000000, -9000000000000000000, 5000000000000000000, -5000000000000000000,
+		4611686018427387904, -4611686018427387905, 5, -1, 0, 1 << 62, -(1 << 62)}
+	bigIntGen := func(r *Rand) kvql.Column { return bigs[r.Intn(min(len(bigs), 3*small+3))] }
 	goIntGen := func(r *Rand) kvql.Column { return int(ints[r.Intn(min(len(ints), small+5))]) }
 	floatGen := func(r *Rand) kvql.Column { return opFloats[r.Intn(min(len(opFloats), 2*small+4))] }
 	nanGen := func(r *Rand) kvql.Column {
@@ -505,8 +509,10 @@ func opColumn(r *Rand) (kvql.Type, opColGen, string) {
 		return kvql.TSTR, bytesGen, "str/bytes"
 	case n < 22:
 		return kvql.TSTR, strGen, "str/string"
-	case n < 34:
+	case n < 30:
 		return kvql.TNUMBER, intGen, "num/int64"
+	case n < 34:
+		return kvql.TNUMBER, bigIntGen, "num/int64-near-2^63"
 	case n < 42:
 		return kvql.TNUMBER, goIntGen, "num/int"
 	case n < 54:
@@ -542,6 +548,9 @@ func opColumn(r *Rand) (kvql.Type, opColGen, string) {
 func opRandomCase(r *Rand, col *Collector) *opCase {
 	c := &opCase{}
 	ncols := 1 + r.Intn(3)
+	if r.Chance(1, 8) {
+		ncols = 4
+	}
 	gens := make([]opColGen, ncols)
 	for i := 0; i < ncols; i++ {
 		tp, g, name := opColumn(r)
@@ -563,13 +572,20 @@ func opRandomCase(r *Rand, col *Collector) *opCase {
 		c.rows = append(c.rows, row)
 	}
 	nk := 1 + r.Intn(3)
+	if r.Chance(1, 8) {
+		nk = 4
+	}
 	for i := 0; i < nk; i++ {
 		k := opKey{col: r.Intn(ncols), desc: r.Bool()}
 		if r.Chance(1, 10) {
 			k.col = ncols // the unique id
 		}
+		if i > 0 && r.Chance(1, 10) {
+			k.col = c.keys[r.Intn(i)].col // the same field again (either direction)
+		}
 		c.keys = append(c.keys, k)
 	}
+	col.Hist(fmt.Sprintf("order-fields:%d", nk))
 	if r.Chance(1, 2) {
 		// the child hands its rows out in its own chunk sizes
 		for left := n; left > 0; {
@@ -640,7 +656,7 @@ func runORDERPLAN(e *Env) (*Summary, error) {
 		seqMax, msMax = 5, 7
 	}
 	nRandom := e.n(6000, 200000)
-	rule := fmt.Sprintf("real FinalOrderPlan over a stub child vs the Lean model, both modes, batch sizes {1,2,3,5}: exhaustive small scope = every row sequence of length ≤ %d over a 3-value column for 1 order field (asc, desc) and over 3×3 values for 2 order fields (4 asc/desc combinations), every row multiset of size ≤ %d in 2 seeded arrangements, column kinds rotating over int64/int/float64/[]byte/string/bool, a unique id column making ties visible; plus %d random cases of 0–40 rows with duplicates, 1–3 order fields over 1–3 columns of kinds int64, int, float64 (±0, ±Inf, NaN), []byte, string, bool, numbers and Booleans as text, nil, mixed kinds and undeclared types, child chunk sizes 1–7; non-trivial when the output order differs from the input order; distinct by protocol line", seqMax, msMax, nRandom)
+	rule := fmt.Sprintf("real FinalOrderPlan over a stub child vs the Lean model, both modes, batch sizes {1,2,3,5}: exhaustive small scope = every row sequence of length ≤ %d over a 3-value column for 1 order field (asc, desc) and over 3×3 values for 2 order fields (4 asc/desc combinations), every row multiset of size ≤ %d in 2 seeded arrangements, column kinds rotating over int64/int/float64/[]byte/string/bool, a unique id column making ties visible; plus %d random cases of 0–40 rows with duplicates, 1–4 order fields (a field may repeat) over 1–4 columns of kinds int64 (also near ±2^63 with opposite signs), int, float64 (±0, ±Inf, NaN), []byte, string, bool, numbers and Booleans as text, nil, mixed kinds and undeclared types, child chunk sizes 1–7; non-trivial when the output order differs from the input order; distinct by protocol line", seqMax, msMax, nRandom)
 	col := NewCollector("ORDERPLAN", e.Tier, e.Seed, rule)
 	col.sum.Exhaustive = true
 	saved := kvql.PlanBatchSize
